@@ -9,6 +9,7 @@ import (
 
 	"pgregory.net/rapid"
 
+	"verifharness/gen"
 	"verifharness/splitk"
 	"verifharness/vk"
 )
@@ -16,6 +17,7 @@ import (
 var rec = vk.NewRecorder("C14")
 
 func TestMain(m *testing.M) {
+	vk.Disturb = gen.Disturb
 	code := m.Run()
 	rec.Flush("all")
 	os.Exit(code)
